@@ -988,7 +988,37 @@ class SSeq:
         return fmt.percent_format(self, args)
 
     def format(self, *a, **kw):
-        raise Unsupported("str.format on symbolic template")
+        """concrete template, possibly symbolic arguments: plain '{}', '{0}', '{name}' fields
+        (optionally with !s); format specs on symbolic arguments are not modelled"""
+        import string
+
+        from . import fmt
+
+        if not self.is_concrete() or self.kind != "str":
+            raise Unsupported("str.format on symbolic template")
+        out = self.same([], 0)
+        auto = 0
+        for lit, field, spec, conv in string.Formatter().parse(self.concrete()):
+            if lit:
+                out = sconcat(out, lift(lit))
+            if field is None:
+                continue
+            if field == "":
+                val = a[auto]
+                auto += 1
+            elif field.isdigit():
+                val = a[int(field)]
+            elif field.isidentifier():
+                val = kw[field]
+            else:
+                raise Unsupported(f"str.format field {field!r}")
+            if isinstance(val, (SSeq, SInt)) or hasattr(val, "e"):
+                if spec or conv not in (None, "s"):
+                    raise Unsupported("str.format spec on a symbolic argument")
+                out = sconcat(out, lift(fmt.to_str(val)))
+            else:
+                out = sconcat(out, lift(("{" + ("!" + conv if conv else "") + (":" + spec if spec else "") + "}").format(val)))
+        return out
 
     def zfill(self, w):
         if not isinstance(w, int):
